@@ -10,6 +10,7 @@ class Facts:
         self.crate = d["crate"]
         self.crate_types = d["crate_types"]
         self.features = d.get("cfg_features", [])
+        self.stolen_bodies = d.get("stolen_bodies", [])
         self.adts = {a["path"]: a for a in d["adts"]}
         self.impls = d["impls"]
         self.fns = {}
